@@ -748,7 +748,8 @@ func c18Reconnect(c *Ctx) {
 			if strings.Contains(n, "yamux.Session).AcceptStream") {
 				acc = cl
 			}
-			if strings.HasSuffix(n, "client.listener).connect") {
+			if strings.HasSuffix(n, "client.listener).connect") || strings.HasSuffix(n, "client.Upstream).connect") {
+				// the listener's reconnect, or (inlined) the upstream connect it wraps
 				conn = cl
 			}
 		})
@@ -780,9 +781,14 @@ func c18Reconnect(c *Ctx) {
 					return strings.Contains(cl.Call.Value.Type().String(), "context.Context")
 				}, isNilConst)
 			})
-			reconnectFailed := anyFact(facts, func(f Fact) bool {
-				return cmpFact(f, token.NEQ, func(v ssa.Value) bool { return v == ssa.Value(conn) }, isNilConst)
-			})
+			isConnErr := func(v ssa.Value) bool {
+				if v == ssa.Value(conn) {
+					return true
+				}
+				ex, ok := v.(*ssa.Extract)
+				return ok && ex.Tuple == ssa.Value(conn) && ex.Index == conn.Call.Signature().Results().Len()-1
+			}
+			reconnectFailed := anyFact(facts, func(f Fact) bool { return cmpFact(f, token.NEQ, isConnErr, isNilConst) })
 			// any extra disjunct that is not local state weakens the guard: use edge alternatives
 			for _, alt := range factAlternatives(fs, r.Block(), 3) {
 				l2 := anyFact(alt, func(f Fact) bool {
@@ -791,9 +797,7 @@ func c18Reconnect(c *Ctx) {
 						return ok && cl.Call.IsInvoke() && cl.Call.Method.Name() == "Err" && strings.Contains(cl.Call.Value.Type().String(), "context.Context")
 					}, isNilConst)
 				})
-				r2 := anyFact(alt, func(f Fact) bool {
-					return cmpFact(f, token.NEQ, func(v ssa.Value) bool { return v == ssa.Value(conn) }, isNilConst)
-				})
+				r2 := anyFact(alt, func(f Fact) bool { return cmpFact(f, token.NEQ, isConnErr, isNilConst) })
 				if !l2 && !r2 {
 					local, reconnectFailed = false, false
 				}
